@@ -151,9 +151,11 @@ func ruleGrammarGuards(c *Ctx) {
 				nEdge++
 				first := sc.Instrs[0]
 				v := RunPend(f, PendRule{
-					Trig:   func(in ssa.Instruction) bool { return in == first },
-					Disch:  c.mustDo("reply:5xx"),
-					Forbid: func(in ssa.Instruction) bool { return labelHas(c.stdLabels(in), "st:MailOptions.Auth") || labelHas(c.stdLabels(in), lMail) },
+					Trig:  func(in ssa.Instruction) bool { return in == first },
+					Disch: c.mustDo("reply:5xx"),
+					Forbid: func(in ssa.Instruction) bool {
+						return labelHas(c.stdLabels(in), "st:MailOptions.Auth") || labelHas(c.stdLabels(in), lMail)
+					},
 					AtExit: true,
 				})
 				R.Ob(fmt.Sprintf("(*Conn).handleMail/empty AUTH value is refused#%d", nEdge), c.P.InstrPos(first), len(v) == 0, "an AUTH parameter that decodes to the empty string (\"AUTH=\") is not refused with 5xx")
